@@ -29,6 +29,8 @@ pub struct Case {
     pub via_writer: bool,
     pub capacity: Option<usize>,
     pub rscript: RScript,
+    /// tolerated error classes: the documents are valid, so tolerating anything must not change what is read
+    pub allow: u8,
 }
 
 /// The property's own exclusion, made precise: an element directly after the end of an unknown-size master that does
@@ -166,7 +168,7 @@ fn check_variant(c: &Case, v: &[Node], expected: &[TagV], st: &mut Stats) -> Res
     }
     let n = bytes.len();
     let input = Arc::new(bytes);
-    let cfg = IterCfg { capacity: c.capacity, ..Default::default() };
+    let cfg = IterCfg { capacity: c.capacity, allow: c.allow, ..Default::default() };
     let tr = run_reader(&c.spec, &ReaderSetup { input: input.clone(), virtual_tail: 0, cfg: &cfg, script: &c.rscript, driver: &Driver::UntilEnd { extra: 0 }, max_steps: 4 * n + 64, keep_read_log: false });
     st.add("api_calls", tr.api_calls as u64);
     st.add("read_calls", tr.read_calls as u64);
@@ -235,7 +237,7 @@ impl Check for C07 {
         }
         let doc = gen::gen_doc(&mut rng, &spec, &o);
         let n = enc::encode(&doc).bytes.len();
-        Case { spec, doc, sweep, via_writer, capacity: io::gen_capacity(&mut rng, n), rscript: io::gen_rscript(&mut rng, n, &[]) }
+        Case { spec, doc, sweep, via_writer, capacity: io::gen_capacity(&mut rng, n), rscript: io::gen_rscript(&mut rng, n, &[]), allow: if rng.chance(1, 3) { rng.below(8) as u8 } else { 0 } }
     }
 
     fn exec(&self, c: &Case, st: &mut Stats) -> Result<ExecOk, Fail> {
@@ -297,7 +299,7 @@ impl Check for C07 {
 
     fn fingerprint(&self, c: &Case) -> u64 {
         let mut f = Fp::default();
-        f.bytes(&enc::encode(&c.doc).bytes).u(c.sweep as u64).u(c.via_writer as u64);
+        f.bytes(&enc::encode(&c.doc).bytes).u(c.sweep as u64).u(c.via_writer as u64).u(c.allow as u64);
         for e in &c.spec.elems {
             f.u(e.id).u(e.ty as u64).u(e.path.len() as u64);
         }
@@ -305,7 +307,7 @@ impl Check for C07 {
     }
 
     fn to_j(&self, c: &Case) -> J {
-        json!({"spec": c.spec.to_j(), "doc": enc::doc_to_j(&c.doc), "sweep": c.sweep, "via_writer": c.via_writer, "capacity": c.capacity, "rscript": c.rscript.to_j()})
+        json!({"spec": c.spec.to_j(), "doc": enc::doc_to_j(&c.doc), "sweep": c.sweep, "via_writer": c.via_writer, "capacity": c.capacity, "rscript": c.rscript.to_j(), "allow": c.allow})
     }
 
     fn from_j(&self, j: &J) -> Result<Case, String> {
@@ -315,6 +317,7 @@ impl Check for C07 {
             sweep: j.get("sweep").and_then(|v| v.as_bool()).unwrap_or(false),
             via_writer: j.get("via_writer").and_then(|v| v.as_bool()).unwrap_or(false),
             capacity: j.get("capacity").and_then(|c| c.as_u64()).map(|c| c as usize),
+            allow: j.get("allow").and_then(|c| c.as_u64()).unwrap_or(0) as u8,
             rscript: RScript::from_j(j.get("rscript").ok_or("rscript")?)?,
         })
     }
@@ -337,6 +340,9 @@ impl Check for C07 {
                 }
             }
             return v;
+        }
+        if c.allow != 0 {
+            v.push(Case { allow: 0, ..c.clone() });
         }
         if !c.rscript.is_whole() || c.capacity.is_some() {
             v.push(Case { rscript: RScript::whole(), capacity: None, ..c.clone() });
@@ -364,7 +370,7 @@ impl Check for C07 {
     }
 
     fn rule(&self) -> &'static str {
-        "One case = specification (depth up to 6) + tag tree + a choice of which masters are unknown-size (random subset, or ALL 2^m subsets when the tree has at most 7 eligible masters), encoded by the reference encoder or by the real writer, read strictly under a drawn schedule; the tag sequence must equal the tree's flattening (= the all-known-size encoding, which is read too). Variants the property excludes (placeholder-pathed element directly after an unknown-size master) are skipped and counted. Non-trivial: at least one master is unknown-size. Distinct: FNV-1a fingerprint of the encoded document + flags + specification."
+        "One case = specification (depth up to 6) + tag tree + a choice of which masters are unknown-size (random subset, or ALL 2^m subsets when the tree has at most 7 eligible masters), encoded by the reference encoder or by the real writer, read under a drawn schedule, strictly or (one case in three) with a drawn set of error classes tolerated, which must make no difference on these valid documents; the tag sequence must equal the tree's flattening (= the all-known-size encoding, which is read too). Variants the property excludes (placeholder-pathed element directly after an unknown-size master) are skipped and counted. Non-trivial: at least one master is unknown-size. Distinct: FNV-1a fingerprint of the encoded document + flags + specification."
     }
     fn assumptions(&self) -> Vec<&'static str> {
         vec![
